@@ -140,8 +140,10 @@ impl FileImportResolver {
 		Self { library_paths }
 	}
 	/// Dynamically add new jpath, used by bindings
+	///
+	/// As `jsonnet_jpath_add` is documented, more recently added paths take precedence.
 	pub fn add_jpath(&mut self, path: PathBuf) {
-		self.library_paths.push(path);
+		self.library_paths.insert(0, path);
 	}
 }
 
